@@ -50,6 +50,9 @@ package receiver
 //@ func (d *Downloader) Run
 //@   requires lock_free_on_entry: !held(d.r.mu)
 //@   loop 0 step newest_listed_name_is_handled: !exists || ni.FullName == d.last.FullName
+//@   loop 1 ghost loc_fresh := 0
+//@   after_call sync.(*Mutex).Lock#0 ghost loc_fresh := 1
+//@   at_call receiver.(*Downloader).LoadOnce#0 assert every_attempt_looks_at_the_latest_listing: ghost_loc_fresh == 1
 //@   lockcheck
 //@   modifies heap
 //@   loop 0 invariant lock_free: !held(d.r.mu)
